@@ -36,6 +36,7 @@ type Stats struct {
 	Transitions   int            `json:"transitions"`
 	PoisonRuns    int            `json:"poison_runs"`
 	WarmRuns      int            `json:"warm_runs"`
+	DrainSteps    int            `json:"drain_steps"`
 	Evaluations   int            `json:"evaluations"`
 	Nontrivial    int            `json:"distinct_nontrivial"`
 	FaultySkipped int            `json:"faulty_transitions_skipped"`
@@ -95,6 +96,7 @@ type Config struct {
 	MaxSamples  int
 	OnState     func(path []Op) // called for every new state (after the monitor)
 	GC          bool            // C18: a forced collection after every operation of every replay and before every check
+	Drain       bool            // from every new state: delete every stored key, one by one (two orders), monitored step by step
 }
 
 // Warmer is implemented by monitors that check a cheap subset of their suite on the
@@ -151,6 +153,43 @@ func rebuildWarm(u *Universe, path []Op) (Driver, *Ref, error) {
 		WarmQueries(u, d)
 	}
 	return d, ref, nil
+}
+
+// drainFrom replays path and then deletes every stored key one by one (ascending or descending
+// oracle order), applying the monitor's transition check and light check after every step: long
+// monotone tails through every shrink threshold and merge, from every reachable state.
+func (e *explorer) drainFrom(path []Op, descending bool) (*Violation, []Op) {
+	u, m, st := e.u, e.m, &e.res.Stats
+	d, ref, err := rebuild(u, path)
+	if err != nil {
+		return nil, nil
+	}
+	keys := ref.Sorted()
+	if descending {
+		keys = Reverse(keys)
+	}
+	full := append([]Op(nil), path...)
+	for _, p := range keys {
+		op := Op{Kind: OpDelete, K: p.K}
+		full = append(full, op)
+		x := &Exec{U: u, D: d, Pre: ref.Clone(), Op: op, Stats: st, SizeBefore: d.Size(), Path: full}
+		x.DelResult, x.Panic = apply(d, op)
+		ref.Apply(op)
+		x.Ref = ref
+		st.DrainSteps++
+		if v := m.Transition(x); v != nil {
+			return v, full
+		}
+		if transitionFaulty(x) {
+			return nil, nil // owned by C01
+		}
+		if w, ok := m.(Warmer); ok {
+			if v := w.Light(x, x); v != nil {
+				return v, full
+			}
+		}
+	}
+	return nil, nil
 }
 
 type stateRec struct {
@@ -683,6 +722,16 @@ func Explore(u *Universe, m Monitor, cfg Config) *Result {
 				}
 				if isNew && cfg.OnState != nil {
 					cfg.OnState(full)
+				}
+				if isNew && cfg.Drain {
+					for _, desc := range []bool{false, true} {
+						if dv, dpath := e.drainFrom(full, desc); dv != nil {
+							if e.report(dv, dpath, "") {
+								return e.res
+							}
+							break
+						}
+					}
 				}
 				if isNew {
 					id := int32(len(e.rec))
